@@ -79,6 +79,14 @@ def run_rsa(ctx, spec):
     for a in arts:
       if rng.chance(1, 3):
         a['e'] = rng.choice([0, 1, 3, 65537, 2 ** 70 + 1, 65536])
+    if b == 6:
+      # moduli next to a power of two, one per bit length (and residue of the
+      # length modulo 3: cube-root scaling), all shards share the work
+      Ls = [1023, 1024, 1025, 1026, 1027, 2047, 2048, 3072, 4096, 768]
+      sh = int(spec['shard'].rsplit('-', 1)[1])
+      arts = [workloads.rsa_artifact(rng, '%s:%d' % (k, L))
+              for k in ('topones', 'topzeros') for L in Ls[sh::5]]
+      ctx.count('power_of_two_neighbour_moduli', len(arts))
     if arts and (b == 5 or (b > 5 and rng.chance(1, 6))):
       # nothing but duplicates of one modulus
       arts = [dict(rng.choice(arts)) for _ in range(rng.choice([2, 3, 7]))]
@@ -174,7 +182,7 @@ def run(ctx, spec):
 def finalize(agg, tier):
   c = agg['counters']
   need = ['calls:rsa', 'calls:ec', 'calls:ecdsa', 'window_sized_issuers',
-          'all_identical_batches',
+          'all_identical_batches', 'power_of_two_neighbour_moduli',
           'size:0', 'size:1', 'size:2',
           'size:3', 'size:4+']
   return [], ['reach counter %s is zero' % k for k in need if not c.get(k)]
